@@ -729,6 +729,18 @@ def h5_copy_from_to(
         node = target_group.create_dataset(target_path, data=source_node[()])
         copy_attrs(source_node, node)  # copy dataset attributes
     else:
+        # collect the nodes to copy before creating the target, so that a target
+        # located inside the source subtree is not traversed (and copied) itself
+        src_children: List[Any] = []
+        if shallow:  # only immediate children
+            src_children = list(source_node.items())
+        else:  # recursive copy
+
+            def collect(name, src_child):
+                src_children.append((name, src_child))
+
+            source_node.visititems(collect)
+
         trg_root = target_group.create_group(target_path)
         copy_attrs(source_node, trg_root)  # copy source node attributes
 
@@ -740,8 +752,5 @@ def h5_copy_from_to(
                 trg_root.create_group(name)
             copy_attrs(src_child, trg_root[name])
 
-        if shallow:  # only immediate children
-            for name, src_child in source_node.items():
-                copy_children(name, src_child)
-        else:  # recursive copy
-            source_node.visititems(copy_children)
+        for name, src_child in src_children:
+            copy_children(name, src_child)
